@@ -44,10 +44,6 @@ Record rstate := mkSt {
   st_version : option str;   (* version *)
   st_src : stream }.         (* bufread *)
 
-(* enough fuel for every loop: one iteration per line of the input, plus slack *)
-Definition stream_fuel (s : stream) : nat :=
-  fold_left (fun n c => fold_left (fun n b => if is_nl b then S n else n) c n) s 3.
-
 Section Reader.
   Variable parse : parser record.
 
